@@ -60,17 +60,18 @@ Next ==
          /\ S!NewStore(c, FALSE, Dl(NewDeadlines, dl), CacheOf(k, c.declared))
   \/ On("restart") /\ phase \in {"running", "failed"} /\ now < Horizon /\
        S!NewStore(cfg, FALSE, Nil, cache)
-  \/ \E n \in NameSet : S!InitReq(n) \/ S!PollStep(n)
+  \/ \E n \in NameSet : S!InitReq(n) \/ S!PollStep(n) \/ S!FlightSend(n)
   \/ \E n \in NameSet, f \in Forced : S!InitResp(n, f) \/ S!PollResp(n, f) \/ S!LookupResp(n, f)
   \/ S!InitRoundEnd \/ S!InitWake \/ S!PollFinish
-  \/ On("refresh") /\ \E c \in CallerSet : S!Refresh(c)
-  \/ On("tick") /\ S!Refresh("poller")
+  \/ On("refresh") /\ \E c \in CallerSet, dl \in LookupDeadlines : S!Refresh(c, Dl(LookupDeadlines, dl))
+  \/ On("tick") /\ S!Refresh("poller", Nil)
+  \/ \E c \in CallerSet : S!RefreshGiveUp(c)
   \/ On("handle") /\ \E n \in NameSet : S!Handle(n)
   \/ On("read") /\ \E n \in NameSet : S!Read(n)
   \/ On("lookup") /\ \E k \in CallerSet, n \in NameSet, dl \in LookupDeadlines : S!Lookup(k, n, Dl(LookupDeadlines, dl))
   \/ \E k \in CallerSet : S!LookupEnter(k) \/ S!LookupGiveUp(k) \/ S!CtxExpire(k)
   \/ On("cancel") /\ \E k \in CallerSet : S!Cancel(k)
-  \/ On("close") /\ (S!Close \/ S!PollerExit)
+  \/ On("close") /\ (S!Close \/ S!PollerGiveUp \/ S!PollerExit)
   \/ On("svc") /\ phase # "config" /\ \E n \in NameSet, v \in 0..MaxVer : v # svc[n].ver /\ S!SvcActivate(n, v)
   \/ On("cachefault") /\ \E w \in BOOLEAN : w # cache.wfail /\ S!CacheFault(w)
   \/ \E t \in NextTimes : S!Advance(t)
